@@ -305,8 +305,10 @@ func init() {
 		Units: serveUnits,
 		Runs: []Run{
 			{Pkg: "fasthttp", Func: "vhC17Hijack", Quick: map[string]int{"tailLen": 3}, Thorough: map[string]int{"tailLen": 6}},
+			{Pkg: "fasthttp", Func: "vhC17HijackAfterOtherRequests", NoNative: true},
 		},
-		Assume: []string{serveAssume,
+		Assume: []string{
+			"hijack after other requests (vhC17HijackAfterOtherRequests): the hijacking request is first on its connection or follows an ordinary request or one whose handler called HijackSetNoResponse(true) without hijacking; optional per-request ReadTimeout through HeaderReceived; the connection records the deadlines the server sets: every request is answered before the hijack, bytes sent later reach the hijack handler, and no read deadline is left on the hijacked connection",serveAssume,
 			"one hijacking GET followed by ≤ tailLen arbitrary bytes, delivered with the request, later, or split after the first byte; HijackSetNoResponse, KeepHijackedConns and ReduceMemoryUsage on/off; the hijack handler reads the connection to EOF; the clause 'the server never reads or writes that connection again' is not decided (the scripted connection cannot tell the hijack handler's reads from the server's)",
 		},
 	})
